@@ -14,6 +14,34 @@ TB_CONV = [
     "Prelude/GoLib.lean: encoding/hex, bits.RotateLeft8, strings.Index/Join, fmt %x/%d, strconv.Atoi on one byte modelled, not verified (exercised through every helper by the correspondence run)",
 ]
 
+def c19_extra(prop, tier, seed, broken, failing, ev_cov, notes):
+    """runtime half of C19: the real library from 64 goroutines under the race detector, results compared with the sequential run"""
+    import core, time
+    ok, out = core.build_race_harness()
+    if not ok:
+        broken.append({"what": "race-instrumented harness does not build", "detail": out[-2000:]})
+        return
+    seeds = [seed] if tier == "quick" else [seed, seed + 1, seed + 2, seed + 3]
+    per = 700 if tier == "quick" else 4000
+    total = 0
+    for sd in seeds:
+        t = time.time()
+        okc, summary, detail, n, ops = core.run_conc(sd, per)
+        total += n
+        core.log(f"conc seed {sd}: {summary or 'no summary'} ({time.time()-t:.0f}s)")
+        notes.append(f"seed {sd}: {summary}")
+        if not okc:
+            what = "data race reported by the Go race detector" if "DATA RACE" in detail else "concurrent result differs from the sequential run"
+            failing.append({"op": f"conc seed={sd} per_domain={per} goroutines=64", "result": what + ": " + detail[:1500], "oracle": "conc", "seed": sd})
+        if os.path.exists(ops) and not os.environ.get("VERIF_KEEP"):
+            os.remove(ops)
+    ev_cov["concurrent_ops"] = total
+    ev_cov["goroutines"] = 64
+    ev_cov["evaluations_override"] = 2 * total
+
+
+import os
+
 CODEC_MODS = ["NasVerif.Props.Codec"]
 
 PROPS = {
@@ -145,5 +173,15 @@ PROPS = {
             "modelled, not verified (Codec/Heap.lean): bytes.NewBuffer aliases its argument and only reads it, binary.Read copies into its destination, make returns fresh memory, binary.Write / Buffer.Write append — Go library semantics",
             "the translator's closed statement language: a codec statement outside the IR (e.g. `a.X.Buffer = buffer.Next(n)`) fails the run and is searched with the aliasing oracles on the real code"],
         rule="decode stream (table-driven valid, boundary, truncated, reordered, malformed inputs for all 45 messages and the three entry points): input snapshot before/after, decode twice, flip every input octet afterwards and re-read the message, scribble over every slice (and its spare capacity) of the message and re-read the input; encode stream (well-formed messages): encode into a pre-filled buffer with spare capacity, twice, compare prefix / outputs / deep message snapshot, flip the output and re-read the message; non-trivial = distinct op the implementation accepts",
+    ),
+    "C19": dict(
+        level="other", modules=["NasVerif.Props.C19"], parts=["Globals"],
+        streams=[], oracle=None, corr=False, extra=c19_extra,
+        trusted_base=TB_COMMON[:1] + ["tools/extract globals part: syntactic, conservative scan of typed ASTs for assignments to, address-taking of and reference escapes of package-level variables outside init (all library packages; internal/tools/** is a build-time generator and is excluded)",
+                                        "the Go memory model, the standard library and logrus (internally synchronised handles are the only shared objects handed out) are not modelled",
+                                        "the Go race detector (go build -race) and the harness's concurrent driver"],
+        rule="op mix drawn from 14 generators (decode, encode, ciphers, MACs, accessors, identity/list/QoS/UE-policy helpers, counter, allocator, PCO, timers), each line building its own values; executed once sequentially and once from 64 goroutines dealt round-robin (odd goroutines walk backwards) under the race detector, plus 200 decoded messages re-read and re-encoded by all goroutines at once; every concurrent outcome compared with the sequential one",
+        explanation="Partial by nature. Proved in Lean: (1) in an abstract interleaving semantics where no step writes the shared store and each thread writes only its own store, every schedule gives every thread the result of its own sequential run; (2) on the facts regenerated from every library package on this run, no function other than init assigns a package-level variable, takes its address or hands out a reference to it, and the module imports neither unsafe nor cgo (decide). Together: a library call is a function of read-only globals and its arguments. Not expressible in the model and therefore checked at run time only: the Go memory model, races inside the standard library / logrus, arguments that share memory. The run-time half executes a generated op mix from 64 goroutines under the Go race detector and compares every result with the sequential run.",
+        assumptions=["goroutines operate on distinct values (each op line constructs its own) or only read a shared decoded message", "schedules are sampled by the Go scheduler under -race, not enumerated"],
     ),
 }
